@@ -439,6 +439,46 @@ func runC18(c *Ctx) {
 	// while the count is positive, and the comment ends only on an end delimiter at count zero.
 	checkNestingCounter(c, p, lexFns, match)
 	checkNewlineEndsString(c, p, lexFns)
+	// R18.19 lines are counted at line feeds: in the primitive that consumes a rune, the line number is advanced under a test
+	// of the rune against '\n' and nothing else (a carriage return counted as well counts every CR LF line end twice)
+	if rd := cfg.Read; rd != nil {
+		nL, bad := 0, ""
+		cd := core.NewPostDom(rd).TransitiveControlDeps()
+		for _, b := range rd.Blocks {
+			for _, in := range b.Instrs {
+				st, ok := in.(*ssa.Store)
+				if !ok {
+					continue
+				}
+				fa, ok := st.Addr.(*ssa.FieldAddr)
+				if !ok || !strings.EqualFold(core.FieldName(fa), "line") {
+					continue
+				}
+				if bo, isBo := st.Val.(*ssa.BinOp); !isBo || bo.Op != token.ADD {
+					continue
+				}
+				nL++
+				for d := range cd[b] {
+					ifi, isIf := d.Instrs[len(d.Instrs)-1].(*ssa.If)
+					if !isIf {
+						continue
+					}
+					okC := false
+					if bo, isBo := ifi.Cond.(*ssa.BinOp); isBo && (bo.Op == token.EQL || bo.Op == token.NEQ) {
+						if k, isK := core.ConstInt(bo.Y); isK && k == '\n' {
+							okC = true
+						}
+					}
+					if !okC {
+						bad = p.Pos(ifi.Cond.Pos())
+					}
+				}
+			}
+		}
+		c.R.Check(bad == "" , "R18.19", rd.Name()+": the line number advances at a line feed and nowhere else", p.Pos(rd.Pos()), fmt.Sprintf("%d increments of the line number, each under `r == '\\n'` only", nL),
+			"the line number is also advanced under another test (at "+bad+"): lines are counted where there is no line feed (a carriage return, say), so the start and end lines of the comments are not the lines of the file")
+		c.R.RequireMin("R18.19", "increments of the line number in the read primitive", nL, 1)
+	}
 
 	// R18.14 what Parse returns belongs to the caller: the call writes no package-level state and the list it returns (and
 	// the comments in it) is allocated by this call - not taken from a pool that a later call fills again
@@ -669,6 +709,58 @@ func checkChunkIterator(c *Ctx, p *core.Prog) {
 	c.R.Check(bad == "", "R18.16", "ChunkIterator: no branch depends on the text of a comment", p.Pos(fn.Pos()), fmt.Sprintf("%d branches, all on positions and lengths", nIf),
 		"a branch of the producer tests the text of a comment (at "+bad+"): comments are delivered or grouped differently depending on what they say - every comment has to be delivered, in maximal runs of adjacent lines")
 	c.R.RequireMin("R18.16", "branches in ChunkIterator", nIf, 3)
+	// R18.20 a run grows comment by comment: the comment that the next one is compared with is the one that was appended
+	// last. In the loop that appends c[index] to the chunk, the loop-carried comment variable takes that same element on the
+	// way round. (If it keeps the first comment of the chunk, a run is cut after two lines.)
+	nA, okPrev := 0, true
+	for _, f := range core.WithAnon(fn) {
+		for _, call := range core.CallsIn(f) {
+			cv, ok := call.(*ssa.Call)
+			if !ok {
+				continue
+			}
+			bi, ok := cv.Call.Value.(*ssa.Builtin)
+			if !ok || bi.Name() != "append" || len(cv.Call.Args) != 2 {
+				continue
+			}
+			el := singleVarargElem(cv.Call.Args[1])
+			if el == nil || !strings.Contains(core.TypeName(el.Type()), "Comment") {
+				continue
+			}
+			// innermost loop header around the append
+			var h *ssa.BasicBlock
+			for d := cv.Block(); d != nil && h == nil; d = d.Idom() {
+				for _, pr := range d.Preds {
+					if d.Dominates(pr) && reaches(cv.Block(), d) {
+						h = d
+					}
+				}
+			}
+			if h == nil {
+				continue
+			}
+			nA++
+			found := false
+			for _, in := range h.Instrs {
+				phi, isPhi := in.(*ssa.Phi)
+				if !isPhi || !types.Identical(phi.Type(), el.Type()) {
+					continue
+				}
+				for k, e := range phi.Edges {
+					if h.Dominates(h.Preds[k]) && core.AP(e) == core.AP(el) && core.AP(e) != "" {
+						found = true
+					}
+				}
+			}
+			if !found {
+				okPrev = false
+			}
+		}
+	}
+	if nA > 0 {
+		c.R.Check(okPrev, "R18.20", "ChunkIterator: the comment a run is continued from is the one appended last", p.Pos(fn.Pos()), "the loop-carried comment becomes the appended element on the way round",
+			"in the loop that appends comments to a chunk no loop-carried comment takes the appended element: every comment is compared with the same earlier one (the first of its chunk), so a run of three or more lines is cut into pieces")
+	}
 }
 
 // checkParseInput: R18.8.
